@@ -1,5 +1,6 @@
 """LOC-DISCIPLINE (C32): runtime error locations - tables are built after optimisation over the same instruction numbering the assembler uses,
 looked up with the predecessor entry for pc-after-increment, and the trace is printed innermost first."""
+import re
 from lib import synq as q
 from lib.core import rule
 from rules.vm_ops import _arms
@@ -327,3 +328,125 @@ def units(ctx, r):
                              f"{g['name']} calls {f['name']} with `{q.show(a)}` as `{bp}`; {f['name']} adds byte lengths to it and reports errors there, so it must be a byte offset of the file (`byte_offset(..)`): a char position is too small by the bytes-minus-chars of all earlier non-ASCII text, and the escape-sequence diagnostic lands on unrelated source, possibly inside a multi-byte character",
                              sample=f"{g['name']}: {f['name']}(.., {bp} = byte offset)")
     r.count("byte-offset bases handed to error-reporting helpers", n_base, 2, LEX)
+
+
+_CURSOR = ["index"]  # the lexer's cursor field, discovered per tree by span_advance (the field a pushed span's `lo` is read from)
+
+
+def _is_self_field(e, name):
+    if name == "index":
+        name = _CURSOR[0]
+    return e["k"] == "Field" and e["f"] == name and e["e"]["k"] == "Path" and e["e"]["p"] == "self"
+
+
+def _addends(e, env, cur, depth=0):
+    """the expression as a sorted list of addend texts; `self.index` stands for the symbolic cursor `cur`; None when it is not a sum we can read"""
+    while e["k"] == "Paren":
+        e = e["e"]
+    if _is_self_field(e, "index"):
+        return list(cur)
+    if e["k"] == "Binary" and e["op"] == "+":
+        a, b = _addends(e["a"], env, cur, depth), _addends(e["b"], env, cur, depth)
+        return None if a is None or b is None else a + b
+    if e["k"] == "Path" and e["p"] in env and depth < 6:
+        return _addends(env[e["p"]], env, cur, depth + 1)
+    if any(_is_self_field(y, "index") for y in q.walk(e)):
+        return None
+    return [q.show(e)]
+
+
+def _emit_summary(items, f, stack=()):
+    """(hi, end) of a straight-line lexer helper that pushes one token: the pushed span's `hi` and the cursor at exit, both as addend lists over the cursor at entry ('@'); None when the helper is not of that shape"""
+    env, cur, hi = {}, ["@"], None
+    for s in q.body_stmts(f["body"]):
+        if s["k"] == "Local" and s["pat"]["k"] == "PIdent" and s.get("init") is not None:
+            init = s["init"]
+            if init["k"] == "Struct" and q.last_seg(init["p"]) == "Span":
+                h = [fl["e"] for fl in init["fields"] if fl["name"] == "hi"]
+                if len(h) != 1:
+                    return None
+                env["<span:" + s["pat"]["name"] + ">"] = _addends(h[0], env, cur)
+            else:
+                env[s["pat"]["name"]] = init
+            continue
+        e = s.get("e") if s["k"] == "ExprStmt" else None
+        if e is None:
+            return None
+        if e["k"] == "Binary" and e["op"] == "+=" and _is_self_field(e["a"], "index"):
+            d = _addends(e["b"], env, cur)
+            if d is None:
+                return None
+            cur = cur + d
+            continue
+        if e["k"] == "MethodCall" and e["m"] == "push" and _is_self_field(e["recv"], "tokens"):
+            tok = e["args"][0] if e["args"] else None
+            if hi is not None or tok is None or tok["k"] != "Struct":
+                return None
+            sp = [fl["e"] for fl in tok["fields"] if fl["name"] == "span"]
+            if len(sp) != 1 or sp[0]["k"] != "Path" or env.get("<span:" + sp[0]["p"] + ">") is None:
+                return None
+            hi = env["<span:" + sp[0]["p"] + ">"]
+            continue
+        if e["k"] == "MethodCall" and e["recv"]["k"] == "Path" and e["recv"]["p"] == "self" and e["m"] not in stack:
+            g = q.find_fn(items, e["m"], impl_ty=q.fn_owner(items, f))
+            sub = _emit_summary(items, g, stack + (f["name"],)) if g is not None else None
+            if sub is None or hi is not None:
+                return None
+            names = [p["pat"]["name"] for p in g["params"] if not p.get("self") and p.get("pat", {}).get("k") == "PIdent"]
+            if len(names) != len(e["args"]):
+                return None
+            argtxt = dict(zip(names, e["args"]))
+
+            def subst(lst):
+                out = []
+                for t in lst:
+                    if t == "@":
+                        out += cur
+                    else:
+                        for nm, a in argtxt.items():
+                            t = re.sub(r"\b" + re.escape(nm) + r"\b", q.show(a), t)
+                        out.append(t)
+                return out
+
+            hi, cur = subst(sub[0]), subst(sub[1])
+            continue
+        return None
+    return None if hi is None else (sorted(hi), sorted(cur))
+
+
+@rule("SPAN-ADVANCE", ["C33"], "a lexer helper that pushes a token and advances the cursor leaves the cursor at the end of the span it pushed: the characters it consumes for the token (separators included) are the characters the token's span covers")
+def span_advance(ctx, r):
+    file = "abra_core/src/parse/lexer.rs"
+    items = ctx.file_items(file)
+    if items is None:
+        r.missing(file)
+        return
+    n = 0
+    los = {}
+    for f, _ in q.iter_items(items):
+        if f["k"] == "Fn" and f.get("body") is not None:
+            for y in q.walk(f["body"]):
+                if y["k"] == "Struct" and q.last_seg(y["p"]) == "Span":
+                    for fl in y["fields"]:
+                        v = fl["e"]
+                        if fl["name"] == "lo" and v["k"] == "Field" and v["e"]["k"] == "Path" and v["e"]["p"] == "self":
+                            los[v["f"]] = los.get(v["f"], 0) + 1
+    if not los:
+        r.missing("a span whose start is read from a field of the lexer", file)
+        return
+    _CURSOR[0] = max(sorted(los), key=lambda k: los[k])
+    for f, _ in q.iter_items(items):
+        if f["k"] != "Fn" or f.get("body") is None:
+            continue
+        try:
+            sm = _emit_summary(items, f)
+        except (KeyError, TypeError, IndexError):
+            sm = None
+        if sm is None:
+            continue
+        n += 1
+        hi, end = sm
+        r.ob(hi == end, f"lexer.rs:{f['name']}:cursor-not-at-span-end", file, f["l"],
+             f"{f['name']}: the pushed token's span ends at cursor + [{' + '.join(t for t in hi if t != '@')}] but the helper leaves the cursor at cursor + [{' + '.join(t for t in end if t != '@')}]: the characters consumed for the token and the characters its span covers differ, so a diagnostic on this token (or on a construct ending with it) does not cover it",
+             sample=f"{f['name']}: span end = cursor at exit = entry + [{' + '.join(t for t in hi if t != '@')}]")
+    r.count("straight-line token-pushing helpers evaluated", n, 1, file)
